@@ -365,7 +365,11 @@ func Mutate(t *rapid.T, units [][]byte) ([][]byte, string) {
 			u = append(u, []byte{0})
 		}
 		i := rapid.IntRange(0, len(u)-1).Draw(t, "unit")
-		kind := rapid.SampledFrom([]string{"truncate-stream", "truncate-unit", "delete", "duplicate", "swap", "flip", "insert", "length-field", "ber-length", "ber-length", "ascii-number", "splice", "repeat-many"}).Draw(t, "mut")
+		kind := rapid.SampledFrom([]string{"truncate-stream", "truncate-unit", "delete", "duplicate", "swap", "flip", "insert", "length-field", "ber-length", "ber-length", "ber-nest", "ascii-number", "splice", "repeat-many"}).Draw(t, "mut")
+		if len(berLengths(u[i], 0, nil)) > 0 && rapid.Bool().Draw(t, "ber-aware") {
+			// the unit is BER (ldap, snmp): prefer the mutations that know the encoding
+			kind = rapid.SampledFrom([]string{"ber-length", "ber-nest"}).Draw(t, "bermut")
+		}
 		kinds = append(kinds, kind)
 		switch kind {
 		case "truncate-stream":
@@ -412,6 +416,21 @@ func Mutate(t *rapid.T, units [][]byte) ([][]byte, string) {
 			} else {
 				kinds[len(kinds)-1] = "ber-length(n/a)"
 			}
+		case "ber-nest":
+			// BER protocols: a chain of consistent constructed elements, and at its bottom one
+			// element whose announced length is (or is not) a lie
+			d := rapid.SampledFrom([]int{1, 2, 5, 16, 31, 32, 33, 34, 40, 63, 64, 65, 100, 255, 1000}).Draw(t, "depth")
+			lie := rapid.SampledFrom([][]byte{{0x02, 'h', 'i'}, {0x81, 0xff}, {0x84, 0x7f, 0xff, 0xff, 0xff}, {0x85, 0xff, 0, 0, 0, 0}, {0x86, 0x10, 0, 0, 0, 0, 0}, {0x86, 0x01, 0, 0, 0, 0, 0}, {0x87, 0x01, 0, 0, 0, 0, 0, 0}, {0x88, 0x7f, 0xff, 0xff, 0xff, 0xff, 0xff, 0xff, 0xff}}).Draw(t, "bottom")
+			el := append([]byte{rapid.SampledFrom([]byte{0x04, 0x04, 0x02, 0x80, 0x30}).Draw(t, "bottomtag")}, lie...)
+			tag := rapid.SampledFrom([]byte{0x30, 0x31, 0xa0, 0x63, 0x60}).Draw(t, "nesttag")
+			for q := 0; q < d; q++ {
+				el = tlv(tag, el)
+			}
+			if rapid.Bool().Draw(t, "envelope") {
+				// inside a well-formed LDAP/SNMP style envelope: SEQUENCE { INTEGER, [APPLICATION n] { .. } }
+				el = tlv(0x30, berInt(rapid.IntRange(0, 300).Draw(t, "id")), tlv(rapid.SampledFrom([]byte{0x60, 0x63, 0x66, 0x68, 0x04, 0xa0}).Draw(t, "op"), el))
+			}
+			u[i] = el
 		case "ascii-number":
 			// text protocols carry lengths and counts as decimal numbers: inflate one
 			if locs := asciiNumber.FindAllIndex(u[i], -1); len(locs) > 0 {
